@@ -33,6 +33,11 @@ type LoopContract struct {
 	Ensures    []*Clause // "loop N ensures E": holds at the end of every iteration (at each back edge)
 }
 
+type Guarded struct {
+	Classes []string
+	Lock    *Clause
+}
+
 type CallSite struct { // "at call <callee>: assert <cond>"
 	Callee string
 	Clause *Clause
@@ -47,8 +52,9 @@ type FuncContract struct {
 	Ensures    []*Clause
 	Loops      map[int]*LoopContract
 	CallSites  []*CallSite
-	AtReturn   []*Clause // "at return: assert c": checked at every return, before deferred calls run
-	Assigns    []string  // nil = unspecified (anything); ["nothing"]; or list of lvalue patterns
+	Guarded    []*Guarded // heap classes that may only be accessed while a lock is held
+	AtReturn   []*Clause  // "at return: assert c": checked at every return, before deferred calls run
+	Assigns    []string   // nil = unspecified (anything); ["nothing"]; or list of lvalue patterns
 	HasAssign  bool
 	NoPanic    bool
 	Trusted    bool // assumed, not verified (external dependency or declared so)
@@ -76,7 +82,7 @@ type Contracts struct {
 
 func ckey(pkg, key string) string { return pkg + "::" + key }
 
-var clauseRe = regexp.MustCompile(`^(requires|ensures|panics|assigns|nopanic|props|loop|at|trusted|pure|functional|nosafety|inline|opt)\b(\[[A-Z0-9, ]+\])?\s*(.*)$`)
+var clauseRe = regexp.MustCompile(`^(requires|ensures|panics|assigns|nopanic|props|loop|at|trusted|pure|functional|nosafety|inline|opt|guarded)\b(\[[A-Z0-9, ]+\])?\s*(.*)$`)
 
 func LoadContracts(repo string, pkgDirs map[string]string) (*Contracts, error) {
 	cs := &Contracts{Funcs: map[string]*FuncContract{}, Specs: map[string]*SpecFunc{}}
@@ -191,6 +197,21 @@ func (cs *Contracts) loadFile(pkgPath, file string) error {
 				fc.Safety = false
 			case "inline":
 				fc.Inline = true
+			case "guarded":
+				// guarded <class-substr>[, <class-substr>...] by <lock expr>
+				idx := strings.LastIndex(rest, " by ")
+				if idx < 0 {
+					return fmt.Errorf("%s: bad guarded clause: %s", file, l)
+				}
+				e, err := parseContractExpr(rest[idx+4:])
+				if err != nil {
+					return fmt.Errorf("%s: %s %s: %v", file, fc.Key, l, err)
+				}
+				g := &Guarded{Lock: &Clause{Kind: "guarded", Text: rest[idx+4:], Expr: e, Props: props, Line: l}}
+				for _, c := range strings.Split(rest[:idx], ",") {
+					g.Classes = append(g.Classes, strings.TrimSpace(c))
+				}
+				fc.Guarded = append(fc.Guarded, g)
 			case "opt":
 				kv := strings.SplitN(rest, "=", 2)
 				if len(kv) == 2 {
